@@ -83,7 +83,7 @@ def run(ctx):
         ctx.broken("collect harness reports missing: %s" % sorted(go2.reports))
     ph = (ctx.extra.get("harness", {}).get("collect", {}).get("counters") or {})
     for need in ("phase_submitted", "phase_timedout", "phase_left"):
-        if not ph.get(need):
+        if not ph.get(need) and not ctx.violations:
             ctx.broken("collection replay never reached %s" % need)
     return ctx.finish(
         level="model_checking",
